@@ -256,9 +256,13 @@ impl WritableBuffer {
     fn memoise_name(&mut self, name: &DomainName) {
         if !name.is_root() && !self.name_pointers.contains_key(name) {
             if let Ok(index) = u16::try_from(self.index()) {
-                let [hi, lo] = index.to_be_bytes();
-                self.name_pointers
-                    .insert(name.clone(), u16::from_be_bytes([hi | 0b1100_0000, lo]));
+                // a pointer has 14 bits for the offset: names written
+                // further in cannot be pointed to.
+                if index < 0b0100_0000_0000_0000 {
+                    let [hi, lo] = index.to_be_bytes();
+                    self.name_pointers
+                        .insert(name.clone(), u16::from_be_bytes([hi | 0b1100_0000, lo]));
+                }
             }
         }
     }
